@@ -41,7 +41,7 @@ ASSUMPTIONS = [
 REAL_STUB = {"real": ["onnx_ir._name_authority", "Graph add paths", "passes.common.NameFixPass", "convenience.rename_values", "Value.name setter"], "stub": [], "harness_extension_points": []}
 
 ADD_OPS = {"new_node", "new_node_with_outputs", "new_node_subgraph", "new_graph", "append", "extend", "insert_before", "insert_after", "node_prepend", "node_append", "sort", "new_function", "new_model", "resize_outputs"}
-RENAMING_OPS = {"value_name", "rename_values", "node_attrs", "init_setitem", "init_add", "init_register", "init_update", "init_setdefault", "replace_nodes_and_values", "namefix"}
+RENAMING_OPS = {"value_name", "rename_values", "node_attrs", "init_setitem", "init_add", "init_register", "init_update", "init_setdefault", "init_dictapi", "replace_nodes_and_values", "namefix"}
 WEIGHTS = dict(ops.WEIGHTS)
 for k in ("new_node", "append", "extend", "insert_before", "insert_after", "remove"):
     WEIGHTS[k] = WEIGHTS[k] * 2
